@@ -12,11 +12,16 @@ ids, RangeDomain, original names) by this file's own builder.  A presentation (J
   domains, domain_values                 RangeDomain, or FiniteDomain with (renamed) string / int / tuple values
   value_perm                             permute the values of a node label's domain together with every factor axis
                                          of that label (and hence the start tensor's axes)
+  start_last                             build with FGG(None), add the rules bottom-up (the rules of the nonterminals a
+                                         nonterminal depends on first, the start symbol's rules last; no label is declared
+                                         beforehand) and set fgg.start afterwards -- the start symbol is then not the
+                                         first registered edge label
 
 Contract (same options on both sides; everything mapped back to the original names and value order):
   sum_product      {Real, Log, Viterbi, Bool} x {float32, float64} x {fixed-point, newton}: Bool exactly, else
                    |a-b| <= tol max(1,|a|,|b|) with tol 1e-9 (float64) / 1e-4 (float32); +-inf, NaN positions identical
-  gradient         Real, float64, seeded cotangent (permuted accordingly): same tolerance 1e-9 on every factor entry,
+  gradient         Real and Log, float64, seeded cotangent (permuted accordingly; Log: over the entries with finite log Z,
+                   entries w.r.t. a log-weight of -inf not compared): same tolerance 1e-9 on every factor entry,
                    None only where the plain presentation has None or all zeros
   viterbi          for every start assignment with a finite best weight: total log-weight of the returned derivation
                    (Viterbi-semiring product of the terminal log-weights at the assigned values, walked through the
@@ -50,7 +55,7 @@ INF = math.inf
 TOL = {"float64": 1e-9, "float32": 1e-4, "bool": 0.0}
 SOLVER = {"float64": (1e-12, 4000), "float32": (1e-6, 4000), "bool": (0.0, 4000)}
 METHODS = ("fixed-point", "newton")
-ASPECTS = ("rule_order", "node_order", "edge_order", "label_order", "ids", "label_names", "domains", "value_perm")
+ASPECTS = ("rule_order", "node_order", "edge_order", "label_order", "ids", "label_names", "domains", "value_perm", "start_last")
 BOUND = ("grammars of G (<= 3 nonterminals, <= 2 rules each, <= 3 nodes / 3 edges per rhs, arity <= 2, domain sizes 1..3; "
          "non-recursive with weights {0,.5,1,2,inf}+seeded and recursive families) x k presentations (quick 4, thorough 8) x "
          "{Real, Log, Viterbi, Bool} x {float32, float64} x {fixed-point, newton}; gradients Real/float64; viterbi "
@@ -107,6 +112,8 @@ def random_presentation(recipe, rng, everything: bool = False) -> dict:
         vp = {n: _perm(rng, size) for n, size in recipe["node_labels"].items() if size > 1}
         if vp:
             pres["value_perm"] = vp
+    if on(0.4):
+        pres["start_last"] = True
     return pres
 
 
@@ -114,7 +121,7 @@ def single_aspect(pres: dict, aspect: str) -> dict:
     keys = {"rule_order": ("rule_order",), "node_order": ("node_order",), "edge_order": ("edge_order",),
             "label_order": ("label_order", "labels_first"), "ids": ("ids", "id_seed"),
             "label_names": ("node_label_names", "edge_label_names"), "domains": ("domains", "domain_values"),
-            "value_perm": ("value_perm",)}[aspect]
+            "value_perm": ("value_perm",), "start_last": ("start_last",)}[aspect]
     return {k: pres[k] for k in keys if k in pres}
 
 
@@ -159,7 +166,8 @@ def build(recipe, pres: Optional[dict], sname: str, dtype: str, requires_grad: b
     for name, d in recipe["edge_labels"].items():
         els[name] = fggs.EdgeLabel(el_name.get(name, name), [nls[x] for x in d["type"]],
                                    is_terminal=bool(d["terminal"]), is_nonterminal=not d["terminal"])
-    fgg = fggs.FGG(els[recipe["start"]])
+    start_last = bool(pres.get("start_last"))
+    fgg = fggs.FGG(None if start_last else els[recipe["start"]])
     doms = {}
     for n, size in recipe["node_labels"].items():
         if pres.get("domains", "range") == "finite":
@@ -173,7 +181,7 @@ def build(recipe, pres: Optional[dict], sname: str, dtype: str, requires_grad: b
             doms[n] = fggs.RangeDomain(size)
         fgg.add_domain(nls[n], doms[n])
     label_order = pres.get("label_order") or list(recipe["edge_labels"])
-    labels_first = pres.get("labels_first", True)
+    labels_first = pres.get("labels_first", True) and not start_last
     if labels_first:
         for name in label_order:
             fgg.add_edge_label(els[name])
@@ -193,7 +201,13 @@ def build(recipe, pres: Optional[dict], sname: str, dtype: str, requires_grad: b
                 return s
     info = {"rules": [None] * n_rules, "nodes": [None] * n_rules, "edges": [None] * n_rules, "labels": els,
             "perms": vperm}
-    for ri in pres.get("rule_order") or range(n_rules):
+    rule_seq = list(pres.get("rule_order") or range(n_rules))
+    if start_last:
+        # bottom-up: dependencies first (SCC order of the reference), the start symbol's rules at the very end; the
+        # relative order of the rules of one left-hand side is kept
+        depth = {x: i for i, comp in enumerate(G.sccs(recipe)) for x in comp}
+        rule_seq.sort(key=lambda ri: (recipe["rules"][ri]["lhs"] == recipe["start"], depth[recipe["rules"][ri]["lhs"]]))
+    for ri in rule_seq:
         r = recipe["rules"][ri]
         g = fggs.Graph()
         nodes = [fggs.Node(nls[l], id=mkid(f"r{ri}n{j}")) for j, l in enumerate(r["nodes"])]
@@ -210,6 +224,8 @@ def build(recipe, pres: Optional[dict], sname: str, dtype: str, requires_grad: b
     if not labels_first:
         for name in label_order:
             fgg.add_edge_label(els[name])
+    if start_last:
+        fgg.start = els[recipe["start"]]
     ws = G.convert_weights(recipe, sname)
     for name in label_order:
         if recipe["edge_labels"][name]["terminal"]:
@@ -263,7 +279,8 @@ def observe_sp(recipe, pres, s: str, d: str, m: str, cot=None) -> dict:
             res["z"] = _unpermute_nested(dense.tolist(), sp) if sp else dense.tolist()
             if cot is not None:
                 c = torch.tensor(_permute_nested(cot, sp) if sp else cot, dtype=dense.dtype)
-                loss = (c * dense).sum()
+                mask = torch.isfinite(dense)          # Log: entries with log Z = -inf stay out of the loss
+                loss = (c[mask] * dense[mask]).sum()
                 if loss.requires_grad:
                     loss.backward()
                 grads = {}
@@ -278,6 +295,9 @@ def observe_sp(recipe, pres, s: str, d: str, m: str, cot=None) -> dict:
                         g = gr.to_dense().tolist()
                         grads[name] = _unpermute_nested(g, [vp.get(l) for l in typ]) if typ else g
                 res["grads"] = grads
+                if s == "Log":      # the derivative w.r.t. a log-weight of -inf is not constrained
+                    ws = G.convert_weights(recipe, "Log")
+                    res["grad_skip"] = {t: [w == -INF for w in _flat(ws[t])] for t in G.terminals(recipe)}
         except Exception as e:  # noqa
             res = {"status": "exception", "exc": f"{type(e).__name__}@{_exc_site(e)}: {str(e)[:200]}", "warned": False}
         res["warned"] = any("maximum iteration" in str(w.message) for w in wl)
@@ -370,7 +390,10 @@ def compare_sp(base: dict, other: dict, tol: float) -> Optional[Tuple[str, str]]
                 fb = [0.0] * len(fo)
             if fo is None:
                 fo = [0.0] * len(fb)
+            skip = (base.get("grad_skip") or {}).get(t)
             for i, (x, y) in enumerate(zip(fb, fo)):
+                if skip is not None and skip[i]:
+                    continue
                 if _num_differs(x, y, tol):
                     return ("gradient-differs", f"factor {t} entry {i}: plain {x!r} presented {y!r}; plain grad "
                                                 f"{json.dumps(gb)} presented grad {json.dumps(go)}")
@@ -419,7 +442,7 @@ def checks_for(recipe, sc, cot):
     for s, d, m in sp_configs():
         if not sc[s]:
             continue
-        out.append(("sp", s, d, m, s == "Real" and d == "float64" and sc["gradient"]))
+        out.append(("sp", s, d, m, s in ("Real", "Log") and d == "float64" and sc["gradient"]))
     if sc["viterbi"]:
         ref = sc["viterbi_ref"][recipe["start"]]
         for a in G.start_assignments(recipe):
@@ -512,6 +535,17 @@ def handwritten() -> List[dict]:
            G._mk({"N0": 2}, {"S": ([], N), "X": (["N0"], N), "d": ([], T), "e": (["N0"], T), "c": (["N0"], T)}, "S",
                  [("S", ["N0"], [("X", [0])], []), ("X", ["N0"], [("c", [0])], [0]), ("X", ["N0"], [("d", []), ("e", [0])], [0])],
                  {"d": G.INF, "e": [0.0, 0.0], "c": [0.5, 0.25]}, {"family": "zero-times-inf-rule-after-finite-rule"})]
+    # a rule without value (it uses an unproductive nonterminal) before productive rules of the same left-hand side
+    from props import c03_bounded as C3
+    out += [g for g in C3.handwritten_extra() if g["meta"]["family"].startswith("unproductive") and g["meta"]["family"].endswith("-order0")]
+    # three levels and a cycle below the start: S -> X Y ; X -> Y a | b ; Y -> X c | Z ; Z -> d  (bottom-up order matters to scc)
+    out.append(G._mk({"N0": 2}, {"S": ([], N), "X": (["N0"], N), "Y": (["N0"], N), "Z": (["N0"], N), "a": (["N0"], T), "b": (["N0"], T),
+                                "c": (["N0", "N0"], T), "d": (["N0"], T)}, "S",
+                     [("S", ["N0", "N0"], [("X", [0]), ("Y", [1])], []),
+                      ("X", ["N0"], [("Y", [0]), ("a", [0])], [0]), ("X", ["N0"], [("b", [0])], [0]),
+                      ("Y", ["N0", "N0"], [("X", [1]), ("c", [0, 1])], [0]), ("Y", ["N0"], [("Z", [0])], [0]),
+                      ("Z", ["N0"], [("d", [0])], [0])],
+                     {"a": [0.3, 0.2], "b": [0.5, 0.25], "c": [[0.2, 0.1], [0.3, 0.25]], "d": [0.4, 0.6]}, {"family": "three-levels-with-cycle"}))
     return out
 
 
@@ -554,6 +588,10 @@ def run_bounded(ctx: Ctx) -> Report:
     aspect_count: Dict[str, int] = {}
     for g in recipes:
         pres = [random_presentation(g, prng, everything=True)]
+        p = random_presentation(g, prng)
+        p.pop("rule_order", None)
+        p["start_last"] = True               # every grammar is also seen bottom-up with the start symbol set last
+        pres.append(p)
         tries = 0
         while len(pres) < k - 1 and tries < 50:
             tries += 1
